@@ -512,6 +512,43 @@ func buildExternals() map[string]extFn {
 	m["internal/stringslite.Clone"] = func(ex *Exec, fr *frame, a []value) value { return a[0] }
 	m["internal/race.Enabled"] = func(ex *Exec, fr *frame, a []value) value { return false }
 
+	m["unicode/utf8.DecodeRune"] = func(ex *Exec, fr *frame, a []value) value {
+		r, sz := ex.decodeRuneModel(a[0].([]value))
+		return tuple{r, sz}
+	}
+	m["unicode/utf8.DecodeRuneInString"] = func(ex *Exec, fr *frame, a []value) value {
+		r, sz := ex.decodeRuneModel(strBytes(a[0]))
+		return tuple{r, sz}
+	}
+	// errors.Is: == on comparable errors, Is methods and Unwrap() error chains
+	m["errors.Is"] = func(ex *Exec, fr *frame, a []value) value {
+		err, target := a[0].(iface), a[1].(iface)
+		if err.t == nil || target.t == nil {
+			return err.t == nil && target.t == nil
+		}
+		for depth := 0; depth < 64; depth++ {
+			if types.Comparable(target.t) && types.Identical(err.t, target.t) {
+				if ex.truth(ex.equals(err.t, err.v, target.v)) {
+					return true
+				}
+			}
+			if r, ok := ex.callMethod(fr, err, "Is", []value{target}); ok {
+				if ex.truth(r) {
+					return true
+				}
+			}
+			u, ok := ex.callMethod(fr, err, "Unwrap", nil)
+			if !ok {
+				return false
+			}
+			ui, isI := u.(iface)
+			if !isI || ui.t == nil {
+				return false
+			}
+			err = ui
+		}
+		return false
+	}
 	addSync(m)
 	addHost(m)
 	return m
